@@ -222,6 +222,8 @@ def rule_environment(ctx):
     fn = find_fn(SI, "propagate_values", "Statement")
     if fn is None:
         return ctx.missing(R, "Statement::propagate_values")
+    import alpha
+    fn, _m = alpha.canon_fields(fn, [("meta", "Substitution", "meta"), ("var", "Substitution", "var"), ("rhe", "Substitution", "rhe")], [("env", "param", 0)])
     adds = list(method_calls(fn["body"], "add_variable"))
     ctx.floor(R, "add_variable sites", len(adds), 1)
     for a in adds:
@@ -232,8 +234,9 @@ def rule_environment(ctx):
         ctx.check(R, "Statement::propagate_values/add_variable/versioned-names-only", guard, "signals and components are not in SSA form: `s <-- 1` in one branch would make every read of `s` the constant 1 and two different constants trip the assert_eq! in add_variable; guards: %s" % cs, site(SI, a))
         noupd = any("Update" in c and c.startswith("!") for c in cs)
         ctx.check(R, "Statement::propagate_values/add_variable/not-for-array-updates", noupd, "guards: %s" % cs, site(SI, a))
-        known = any(c[0] == "iflet" and c[3] and render(c[2]).replace(" ", "") == "rhe.value()" for c in conds)
-        ctx.check(R, "Statement::propagate_values/add_variable/value-of-the-rhs", known and render(strip(a["args"][1])) == "value", "add_variable(%s) under %s" % (render(a["args"]), cs), site(SI, a))
+        known = [render(c[1]).replace(" ", "") for c in conds if c[0] == "iflet" and c[3] and render(c[2]).replace(" ", "") == "rhe.value()"]
+        vb_ = re.fullmatch(r"Some\((\w+)\)", known[0]).group(1) if known and re.fullmatch(r"Some\((\w+)\)", known[0]) else None
+        ctx.check(R, "Statement::propagate_values/add_variable/value-of-the-rhs", vb_ is not None and render(strip(a["args"][1])) == vb_, "add_variable(%s) under %s" % (render(a["args"]), cs), site(SI, a))
     import facts
     callers = []
     for f in facts.ast():
